@@ -4,9 +4,11 @@ dataclass that has no to_dict method yet (mashumaro/core/meta/types/pack.py).
 Translated on every run: the expressions of the keyword arguments `default_dialect=` and
 `dialect=` of the call `builder = spec.builder.__class__(...)`, together with every statement
 that precedes the call inside the enclosing `if` (they may rebind the names used), as functions
-of the compiling builder's default dialect, dialect, Config.dialect and of `type_args`.
-The model (OptNested.pass_dd) says: default_dialect = the compiling builder's default dialect and
-dialect = its dialect -- never the owner's Config.dialect.  Fail closed on any other shape."""
+of the compiling builder's default dialect, dialect, Config.dialect, `type_args` and is_nailed.
+The model (OptNested.pass_dd / pass_dialect) says: default_dialect = the compiling builder's
+default dialect -- never the owner's Config.dialect; dialect = None for a mixin (nailed) builder
+(the nested class gets its DEFAULT method on demand), the builder's dialect for a codec builder.
+Fail closed on any other shape."""
 from __future__ import annotations
 
 import ast
@@ -22,8 +24,9 @@ ABSTR = {
     "spec.builder.dialect": "a_dialect",
     "spec.builder.get_config().dialect": "a_cfg_dialect",
     "type_args": "v_type_args",
+    "spec.builder.is_nailed": "a_is_nailed",
 }
-PARAMS = ["a_default_dialect", "a_dialect", "a_cfg_dialect", "v_type_args"]
+PARAMS = ["a_default_dialect", "a_dialect", "a_cfg_dialect", "v_type_args", "a_is_nailed"]
 
 
 def _find_builder_call(fn: ast.FunctionDef):
